@@ -47,6 +47,10 @@ DuplexFault == [Base EXCEPT !.cl.form = "grpcweb", !.cl.major = 2, !.cl.codec = 
                             !.cl.frames = <<Frame(1, FALSE), [Frame(2, FALSE) EXCEPT !.fault = "flags:4"]>>,
                             !.hd.frames = <<Frame(9, FALSE)>>, !.hd.duplex = TRUE]
 DuplexFaultJson == [DuplexFault EXCEPT !.cl.codec = "json"]
+\* ... or a request message that fits the limit as it arrives (JSON) and exceeds it once re-encoded for the
+\* backend (400 negative int32: 1.2 kB of JSON, 4 kB binary; L = 2048)
+DuplexRecodeOversize == [msgs |-> [x \in {"2"} |-> "negs:400"]] @@
+                        [DuplexFaultJson EXCEPT !.cl.frames = <<Frame(1, FALSE), Frame(2, FALSE)>>]
 \* the backend's compressed response message decompresses but does not decode; before the handler returns,
 \* another RPC with a large response runs on the same Transcoder (whatever the failed RPC still holds of
 \* its message buffer is by then somebody else's)
@@ -66,12 +70,12 @@ BackendError == [OkStreamGzip EXCEPT !.hd.end.code = 8, !.hd.errat = 0]
 BigResponse == [msgs |-> [x \in {"9"} |-> "size:5000"]] @@ OkUnary
 
 Kinds == {OkUnary, OkStreamGzip, RejectCodec, CutMid, Oversize, OversizeMeasure, CutMeasure, GzCorrupt, NotGzip, Undecodable,
-          BackendPanic, BackendError, BigResponse, CloseRace, DuplexFault, DuplexFaultJson, RespUndecodable, GetGzip, BadTimestamp, AuxJson}
+          BackendPanic, BackendError, BigResponse, CloseRace, DuplexFault, DuplexFaultJson, RespUndecodable, GetGzip, BadTimestamp, AuxJson, DuplexRecodeOversize}
 Probes == {OkUnary, OkStreamGzip, OkRest, OkServerStream, GetGzip, OkAny}
 
 HInit == hist = <<>> /\ pr = OkUnary /\ hph = "grow" /\ Init
 Grow == /\ hph = "grow" /\ Len(hist) < (IF What = "history" THEN MaxHist ELSE NConc)
-        /\ \E k \in (IF What = "history" THEN Kinds ELSE Probes \cup {CutMid, Oversize, OversizeMeasure, GzCorrupt, NotGzip, BackendError, CloseRace, DuplexFault, DuplexFaultJson, RespUndecodable, GetGzip, BadTimestamp}) : hist' = Append(hist, k)
+        /\ \E k \in (IF What = "history" THEN Kinds ELSE Probes \cup {CutMid, Oversize, OversizeMeasure, GzCorrupt, NotGzip, BackendError, CloseRace, DuplexFault, DuplexFaultJson, DuplexRecodeOversize, RespUndecodable, GetGzip, BadTimestamp}) : hist' = Append(hist, k)
         /\ UNCHANGED <<pr, hph>>
 Pick == /\ hph = "grow"
         /\ (What = "conc" => Len(hist) >= 2)
